@@ -461,7 +461,7 @@ func driveGenFree(env *fw.Env, b *behaviour) *fw.Trace {
 	go func() { wg.Wait(); close(done) }()
 	select {
 	case <-done:
-	case <-time.After(30 * time.Second):
+	case <-time.After(3 * time.Minute):
 		return &fw.Trace{Status: fw.DriverError, Note: "free-running generator processes did not finish"}
 	}
 	t.Events = append(t.Events, fw.Event{"ev": "Snap", "markers": r.markers(), "quiet": true})
